@@ -161,7 +161,11 @@ where
                 self.inner.restore_active_blob().await?;
             },
             OperationType::TryDumpBlobIndexes => {
-                self.try_run_old_blob_indexes_dump_task().await;
+                // The dump task that is already running may have passed the blobs this request is about
+                // (or be about to finish), so the request must not be lost: it is deferred instead
+                if !self.try_run_old_blob_indexes_dump_task().await {
+                    self.defer_blob_indexes_dump().await?;
+                }
             },
             OperationType::TryFsyncData => {
                 self.try_run_fsync_task().await;
